@@ -5,6 +5,8 @@ CONSTANTS
     MaxAllocs = 2
     MaxWrites = 3
     Schemas = {"plain", "topdict", "dict_struct"}
+    ColClasses = {}
+    MaxCols = 0
     RowClasses = {"many"}
     MdClasses = {"none"}
     PtrClasses = {"exact", "long", "short", "beyond_end", "neg_len"}
